@@ -257,158 +257,11 @@ func init() {
 				r.Header.Set("Content-Type", ct)
 				rr := httptest.NewRecorder()
 				f.GW.Handler(rr, r)
-				set := map[string]bool{}
-				if rr.Code != 200 {
-					set[fmt.Sprintf("status %d for a well-formed multipart request", rr.Code)] = true
+				sigs, reached, genErrs := JudgeUpload(f, l, rr.Code, rr.Body.Bytes())
+				for _, g := range genErrs {
+					em.GenError(g)
 				}
-				var resp interface{}
-				json.Unmarshal(rr.Body.Bytes(), &resp)
-				var results []interface{}
-				if len(l.Ops) == 1 {
-					results = []interface{}{resp}
-				} else {
-					results, _ = resp.([]interface{})
-				}
-				// data equality per operation
-				for oi, o := range l.Ops {
-					doc, gerr := f.load(o.Q)
-					if doc == nil {
-						em.GenError(gerr)
-						continue
-					}
-					ref, err := gqlref.Execute(f.Merged, f.W.Monolith(f.Merged, Counters{}), doc.Operations[0], l.refVars(oi), nil)
-					if err != nil {
-						em.GenError(err.Error())
-						continue
-					}
-					if oi >= len(results) {
-						set["missing result for an operation of the batch"] = true
-						continue
-					}
-					rm, _ := results[oi].(map[string]interface{})
-					if rm == nil {
-						set["result is not an object"] = true
-						continue
-					}
-					if e, ok := rm["errors"].([]interface{}); ok && len(e) > 0 {
-						msg := ""
-						if m, ok := e[0].(map[string]interface{}); ok {
-							msg = fmt.Sprint(m["message"])
-						}
-						set["errors: "+Template(msg)] = true
-						continue
-					}
-					if len(l.Ops) == 1 { // in a client batch the services' mutation counters are shared; C08 judges batch answers
-						for _, d := range DiffSigs(gqlref.Norm(ref), rm["data"]) {
-							set[d] = true
-						}
-					}
-				}
-				// what the services received
-				reached := false
-				type cand struct {
-					sr       *SubReq
-					declared map[string]bool
-				}
-				var cands []cand
-				for _, sr := range f.Fakes.Reqs {
-					if sr.Doc == nil {
-						set["subrequest-invalid: "+Template(sr.Invalid)] = true
-						continue
-					}
-					declared := map[string]bool{}
-					for _, op := range sr.Doc.Operations {
-						for _, vd := range op.VariableDefinitions {
-							declared[vd.Variable] = true
-						}
-					}
-					cands = append(cands, cand{sr, declared})
-					if sr.Multipart {
-						for path, got := range sr.Files {
-							pp := strings.Split(path, ".")
-							if len(pp) < 2 || !declared[pp[1]] {
-								set["service received a file for a variable its sub-request does not use"] = true
-							}
-							known := false
-							for _, fl := range l.Files {
-								if fl.Name == got.Name && fl.Content == got.Content {
-									known = true
-								}
-							}
-							if !known {
-								// attributed below to the precise kind of corruption
-								_ = known
-							}
-						}
-					}
-				}
-				for oi := range l.Ops {
-					for _, fl := range l.Files {
-						for _, p := range fl.Paths {
-							pp := strings.Split(p, ".")
-							if len(l.Ops) > 1 {
-								if pp[0] != fmt.Sprint(oi) {
-									continue
-								}
-								pp = pp[1:]
-							}
-							rel := strings.Join(pp, ".")
-							// per service: some sub-request that uses the variable must carry the file intact
-							bySvc := map[int]string{}
-							for _, c := range cands {
-								if !c.declared[pp[1]] || c.sr.Keyword != ast.Mutation || !subReqBelongs(c.sr, l.Ops[oi]) {
-									continue
-								}
-								verdict := "service that uses the file variable did not receive the file at its path"
-								if got, ok := c.sr.Files[rel]; ok && c.sr.Multipart {
-									switch {
-									case got.Name == fl.Name && got.Content == fl.Content:
-										verdict = ""
-									case got.Content != fl.Content:
-										verdict = "file bytes changed on the way"
-									default:
-										verdict = "file name changed on the way"
-									}
-								}
-								if prev, seen := bySvc[c.sr.Svc]; !seen || (prev != "" && verdict == "") {
-									bySvc[c.sr.Svc] = verdict
-								}
-							}
-							if len(l.Ops) > 1 {
-								// in a client batch sub-requests cannot be attributed to one operation
-								// unambiguously (same root fields, same variable names): the file must
-								// arrive intact in at least one of the candidates
-								any, worst := false, ""
-								for _, v := range bySvc {
-									if v == "" {
-										any = true
-									} else {
-										worst = v
-									}
-								}
-								if any {
-									reached = true
-								} else if worst != "" {
-									set[worst] = true
-								}
-								continue
-							}
-							for _, v := range bySvc {
-								if v == "" {
-									reached = true
-								} else {
-									set[v] = true
-								}
-							}
-						}
-					}
-				}
-				if len(set) > 0 {
-					var sigs []string
-					for k := range set {
-						sigs = append(sigs, k)
-					}
-					sort.Strings(sigs)
+				if len(sigs) > 0 {
 					em.Fail(atoms, sigs, rp)
 				}
 				if i%97 == 0 {
@@ -418,6 +271,172 @@ func init() {
 			}
 		},
 	}
+}
+
+// UpLayout / UploadLayouts / JudgeUpload: the layout alphabet and the oracle of C19, shared
+// with the schedule-exploring part of the check (harness/b/c19.go).
+type UpLayout = upLayout
+
+func UploadLayouts(tier string, second bool) []UpLayout { return upLayouts(tier, second) }
+func (l upLayout) Body() (string, string)               { return l.body() }
+
+// JudgeUpload compares what the services received (f.Fakes) and the client's answer with
+// the layout; reached = some file arrived intact at a service that uses it.
+func JudgeUpload(f *Fed, l upLayout, status int, respBody []byte) (sigs []string, reached bool, genErrs []string) {
+	set := map[string]bool{}
+	if status != 200 {
+		set[fmt.Sprintf("status %d for a well-formed multipart request", status)] = true
+	}
+	var resp interface{}
+	json.Unmarshal(respBody, &resp)
+	var results []interface{}
+	if len(l.Ops) == 1 {
+		results = []interface{}{resp}
+	} else {
+		results, _ = resp.([]interface{})
+	}
+	// data equality per operation
+	for oi, o := range l.Ops {
+		doc, gerr := f.load(o.Q)
+		if doc == nil {
+			genErrs = append(genErrs, gerr)
+			continue
+		}
+		ref, err := gqlref.Execute(f.Merged, f.W.Monolith(f.Merged, Counters{}), doc.Operations[0], l.refVars(oi), nil)
+		if err != nil {
+			genErrs = append(genErrs, err.Error())
+			continue
+		}
+		if oi >= len(results) {
+			set["missing result for an operation of the batch"] = true
+			continue
+		}
+		rm, _ := results[oi].(map[string]interface{})
+		if rm == nil {
+			set["result is not an object"] = true
+			continue
+		}
+		if e, ok := rm["errors"].([]interface{}); ok && len(e) > 0 {
+			msg := ""
+			if m, ok := e[0].(map[string]interface{}); ok {
+				msg = fmt.Sprint(m["message"])
+			}
+			set["errors: "+Template(msg)] = true
+			continue
+		}
+		if len(l.Ops) == 1 { // in a client batch the services' mutation counters are shared; C08 judges batch answers
+			for _, d := range DiffSigs(gqlref.Norm(ref), rm["data"]) {
+				set[d] = true
+			}
+		}
+	}
+	// what the services received
+	reached = false
+	type cand struct {
+		sr       *SubReq
+		declared map[string]bool
+	}
+	var cands []cand
+	for _, sr := range f.Fakes.Reqs {
+		if sr.Doc == nil {
+			set["subrequest-invalid: "+Template(sr.Invalid)] = true
+			continue
+		}
+		declared := map[string]bool{}
+		for _, op := range sr.Doc.Operations {
+			for _, vd := range op.VariableDefinitions {
+				declared[vd.Variable] = true
+			}
+		}
+		cands = append(cands, cand{sr, declared})
+		if sr.Multipart {
+			for path, got := range sr.Files {
+				pp := strings.Split(path, ".")
+				if len(pp) < 2 || !declared[pp[1]] {
+					set["service received a file for a variable its sub-request does not use"] = true
+				}
+				known := false
+				for _, fl := range l.Files {
+					if fl.Name == got.Name && fl.Content == got.Content {
+						known = true
+					}
+				}
+				if !known {
+					// attributed below to the precise kind of corruption
+					_ = known
+				}
+			}
+		}
+	}
+	for oi := range l.Ops {
+		for _, fl := range l.Files {
+			for _, p := range fl.Paths {
+				pp := strings.Split(p, ".")
+				if len(l.Ops) > 1 {
+					if pp[0] != fmt.Sprint(oi) {
+						continue
+					}
+					pp = pp[1:]
+				}
+				rel := strings.Join(pp, ".")
+				// per service: some sub-request that uses the variable must carry the file intact
+				bySvc := map[int]string{}
+				for _, c := range cands {
+					if !c.declared[pp[1]] || c.sr.Keyword != ast.Mutation || !subReqBelongs(c.sr, l.Ops[oi]) {
+						continue
+					}
+					verdict := "service that uses the file variable did not receive the file at its path"
+					if got, ok := c.sr.Files[rel]; ok && c.sr.Multipart {
+						switch {
+						case got.Name == fl.Name && got.Content == fl.Content:
+							verdict = ""
+						case got.Content != fl.Content:
+							verdict = "file bytes changed on the way"
+						default:
+							verdict = "file name changed on the way"
+						}
+					}
+					if prev, seen := bySvc[c.sr.Svc]; !seen || (prev != "" && verdict == "") {
+						bySvc[c.sr.Svc] = verdict
+					}
+				}
+				if len(l.Ops) > 1 {
+					// in a client batch sub-requests cannot be attributed to one operation
+					// unambiguously (same root fields, same variable names): the file must
+					// arrive intact in at least one of the candidates
+					any, worst := false, ""
+					for _, v := range bySvc {
+						if v == "" {
+							any = true
+						} else {
+							worst = v
+						}
+					}
+					if any {
+						reached = true
+					} else if worst != "" {
+						set[worst] = true
+					}
+					continue
+				}
+				for _, v := range bySvc {
+					if v == "" {
+						reached = true
+					} else {
+						set[v] = true
+					}
+				}
+			}
+		}
+	}
+	for _, o := range f.Fakes.Other {
+		set["service received an undecodable request: "+Template(o)] = true
+	}
+	for k := range set {
+		sigs = append(sigs, k)
+	}
+	sort.Strings(sigs)
+	return sigs, reached, genErrs
 }
 
 // subReqBelongs: in batch mode attribute a sub-request to a client operation by its root fields.
